@@ -148,6 +148,26 @@ let put_result r =
   L [put_bool r.r_ok; put_opt put_failure r.r_fail; put_fs r.r_fs; put_list put_mop r.r_trace;
      put_list (fun (a, b) -> L [put_path a; put_path b]) r.r_performed]
 
+(* ---- lock protocol (C12) ---- *)
+let get_content = function
+  | A "empty" -> CEmpty | A "nocolon" -> CNoColon | A "garbagecolon" -> CGarbageColon
+  | L [A "valid"; o; t] -> CValid (get_nat o, get_nat t)
+  | _ -> failwith "content"
+let put_content = function
+  | CEmpty -> A "empty" | CNoColon -> A "nocolon" | CGarbageColon -> A "garbagecolon"
+  | CValid (o, t) -> L [A "valid"; put_nat o; put_nat t]
+let put_pc = function
+  | PStart -> A "start" | PSawExists -> A "sawexists" | PRead c -> L [A "read"; put_content c]
+  | PRemove -> A "remove" | PCreate -> A "create" | PWrite -> A "write" | PCritical -> A "critical"
+  | PDropCheck -> A "dropcheck" | PDropRemove -> A "dropremove" | PDone b -> L [A "done"; put_bool b]
+let get_ev = function
+  | L [A "step"; p] -> Step (get_nat p) | L [A "tick"; n] -> Tick (get_nat n) | L [A "crash"; p] -> Crash (get_nat p)
+  | _ -> failwith "ev"
+let put_world w =
+  L [put_opt put_content w.lock; put_nat w.now;
+     put_list (fun (p, c) -> L [put_nat p; put_pc c]) w.procs; put_list put_nat w.dead;
+     put_list put_nat (in_critical w)]
+
 let dispatch (req : Sexp.t) : Sexp.t =
   match req with
   | L (A op :: args) -> begin
@@ -183,6 +203,15 @@ let dispatch (req : Sexp.t) : Sexp.t =
             (get_list (function L [p; c] -> (get_path p, get_opt get_bytes c) | _ -> failwith "restore") restore)
             (get_list get_path created) (get_fs t) in
         L [put_bool r.u_ok; put_fs r.u_fs; put_list put_path r.u_failed]
+      | "lock_trace", [l; now; pids; deadl; evs] ->
+        let w00 = init (get_opt get_content l) (get_nat now) (get_list get_nat pids) in
+        let w0 = { w00 with dead = get_list get_nat deadl } in
+        let rec go w es acc = match es with
+          | [] -> List.rev acc
+          | e :: es' -> (match exec1 w e with
+              | Some w' -> go w' es' (put_world w' :: acc)
+              | None -> List.rev (A "invalid" :: acc)) in
+        L (put_world w0 :: go w0 (get_list get_ev evs) [])
       | "spec_apply", [p; t] -> put_fs (spec_apply (get_aplan p) (get_fs t))
       | "serde_plan", [p] ->
         let p = get_plan p in
